@@ -1,3 +1,1111 @@
 package main
 
-func runC13(seed uint64, ncases int, outPath string, replay string) {}
+import (
+	"bufio"
+	"bytes"
+	"encoding/hex"
+	"fmt"
+	"math"
+	"os"
+	"sort"
+	"strings"
+	"time"
+
+	"github.com/squadracorsepolito/acmelib"
+	pb "github.com/squadracorsepolito/acmelib/proto/gen/go/acmelib/v1"
+	"google.golang.org/protobuf/encoding/protojson"
+	"google.golang.org/protobuf/encoding/prototext"
+	"google.golang.org/protobuf/proto"
+	"google.golang.org/protobuf/types/known/timestamppb"
+	"verif/vinv"
+)
+
+// ------------------------------------------------------------------------------------------
+// sites of a protobuf tree
+// ------------------------------------------------------------------------------------------
+
+type sites struct {
+	ents      []**pb.Entity
+	entOwners []string
+	sigs      []*pb.Signal
+	sigLists  []*[]*pb.Signal
+	msgs      []*pb.Message
+	msgLists  []*[]*pb.Message
+	ifaces    []*pb.NodeInterface
+	ifLists   []*[]*pb.NodeInterface
+	muxes     []*pb.MultiplexerSignal
+	payloads  []*pb.SignalPayload
+	assigns   []*pb.AttributeAssignment
+	asLists   []*[]*pb.AttributeAssignment
+	u32       []*uint32
+	u32Names  []string
+	idFields  []*string
+	idKinds   []string
+	allIDs    []string
+	kindIDs   map[string][]string
+}
+
+func (s *sites) ent(slot **pb.Entity, owner string) {
+	s.ents = append(s.ents, slot)
+	s.entOwners = append(s.entOwners, owner)
+	if *slot != nil {
+		s.allIDs = append(s.allIDs, (*slot).EntityId)
+		s.kindIDs[owner] = append(s.kindIDs[owner], (*slot).EntityId)
+	}
+}
+func (s *sites) num(p *uint32, name string) { s.u32 = append(s.u32, p); s.u32Names = append(s.u32Names, name) }
+func (s *sites) id(p *string, kind string)  { s.idFields = append(s.idFields, p); s.idKinds = append(s.idKinds, kind) }
+func (s *sites) asg(l *[]*pb.AttributeAssignment) {
+	s.asLists = append(s.asLists, l)
+	for _, a := range *l {
+		s.assigns = append(s.assigns, a)
+		s.id(&a.AttributeEntityId, "attr")
+	}
+}
+func (s *sites) payload(p *pb.SignalPayload) {
+	if p == nil {
+		return
+	}
+	s.payloads = append(s.payloads, p)
+	for _, r := range p.Refs {
+		s.id(&r.SignalEntityId, "sig")
+		s.num(&r.RelStartBit, "rel_start_bit")
+	}
+}
+func (s *sites) sigList(l *[]*pb.Signal) {
+	s.sigLists = append(s.sigLists, l)
+	for _, x := range *l {
+		s.sig(x)
+	}
+}
+func (s *sites) sig(x *pb.Signal) {
+	s.sigs = append(s.sigs, x)
+	s.ent(&x.Entity, "sig")
+	s.asg(&x.AttributeAssignments)
+	switch b := x.Signal.(type) {
+	case *pb.Signal_Standard:
+		s.id(&b.Standard.TypeEntityId, "type")
+		s.id(&b.Standard.UnitEntityId, "unit")
+	case *pb.Signal_Enum:
+		s.id(&b.Enum.EnumEntityId, "enum")
+	case *pb.Signal_Multiplexer:
+		m := b.Multiplexer
+		s.muxes = append(s.muxes, m)
+		s.num(&m.GroupCount, "group_count")
+		s.num(&m.GroupSize, "group_size")
+		for i := range m.FixedSignalEntityIds {
+			s.id(&m.FixedSignalEntityIds[i], "sig")
+		}
+		for _, g := range m.Groups {
+			s.payload(g)
+		}
+		s.sigList(&m.Signals)
+	}
+}
+
+func collect(n *pb.Network) *sites {
+	s := &sites{kindIDs: map[string][]string{}}
+	s.ent(&n.Entity, "net")
+	for _, cb := range n.CanidBuilders {
+		s.ent(&cb.Entity, "builder")
+		for _, op := range cb.Operations {
+			s.num(&op.From, "op_from")
+			s.num(&op.Len, "op_len")
+		}
+	}
+	for _, a := range n.Attributes {
+		s.ent(&a.Entity, "attr")
+	}
+	for _, nd := range n.Nodes {
+		s.ent(&nd.Entity, "node")
+		s.num(&nd.NodeId, "node_id")
+		s.num(&nd.InterfaceCount, "interface_count")
+		s.asg(&nd.AttributeAssignments)
+	}
+	for _, t := range n.SignalTypes {
+		s.ent(&t.Entity, "type")
+		s.num(&t.Size, "type_size")
+	}
+	for _, u := range n.SignalUnits {
+		s.ent(&u.Entity, "unit")
+	}
+	for _, e := range n.SignalEnums {
+		s.ent(&e.Entity, "enum")
+		s.num(&e.MinSize, "min_size")
+		for _, v := range e.Values {
+			s.ent(&v.Entity, "enumval")
+			s.num(&v.Index, "enum_index")
+		}
+	}
+	for _, b := range n.Buses {
+		s.ent(&b.Entity, "bus")
+		s.num(&b.Baudrate, "baudrate")
+		s.id(&b.CanidBuilderEntityId, "builder")
+		s.asg(&b.AttributeAssignments)
+		s.ifLists = append(s.ifLists, &b.NodeInterfaces)
+		for _, ni := range b.NodeInterfaces {
+			s.ifaces = append(s.ifaces, ni)
+			s.id(&ni.NodeEntityId, "node")
+			s.msgLists = append(s.msgLists, &ni.Messages)
+			for _, m := range ni.Messages {
+				s.msgs = append(s.msgs, m)
+				s.ent(&m.Entity, "msg")
+				s.num(&m.SizeByte, "size_byte")
+				s.num(&m.MessageId, "message_id")
+				s.num(&m.StaticCanId, "static_can_id")
+				s.num(&m.CycleTime, "cycle_time")
+				s.asg(&m.AttributeAssignments)
+				s.payload(m.Payload)
+				for _, r := range m.Receivers {
+					s.id(&r.NodeEntityId, "node")
+					s.num(&r.NodeInterfaceNumber, "receiver_iface")
+				}
+				s.sigList(&m.Signals)
+			}
+		}
+	}
+	return s
+}
+
+// ------------------------------------------------------------------------------------------
+// tree-level mutations: each returns a description ("" = not applicable here)
+// ------------------------------------------------------------------------------------------
+
+type mutation struct {
+	name string
+	f    func(r *rng, n *pb.Network, s *sites) string
+}
+
+func pickID(r *rng, s *sites, kind string) string {
+	switch r.below(10) {
+	case 0:
+		return "no-such-entity"
+	case 1:
+		return ""
+	case 2, 3, 4:
+		if len(s.allIDs) > 0 {
+			return s.allIDs[r.below(len(s.allIDs))]
+		}
+	}
+	if l := s.kindIDs[kind]; len(l) > 0 {
+		return l[r.below(len(l))]
+	}
+	return "no-such-entity"
+}
+
+var u32Pool = []uint32{0, 1, 2, 7, 8, 9, 63, 64, 65, 255, 4096, 65535, 65536, 1<<31 - 1, 1 << 31, math.MaxUint32}
+
+var mutations = []mutation{
+	{"delete-entity", func(r *rng, n *pb.Network, s *sites) string {
+		i := r.below(len(s.ents))
+		if *s.ents[i] == nil {
+			return ""
+		}
+		*s.ents[i] = nil
+		return "entity of a " + s.entOwners[i] + " deleted"
+	}},
+	{"delete-payload", func(r *rng, n *pb.Network, s *sites) string {
+		if len(s.msgs) == 0 {
+			return ""
+		}
+		s.msgs[r.below(len(s.msgs))].Payload = nil
+		return "message payload deleted"
+	}},
+	{"clear-oneof", func(r *rng, n *pb.Network, s *sites) string {
+		switch r.below(3) {
+		case 0:
+			if len(s.sigs) > 0 {
+				s.sigs[r.below(len(s.sigs))].Signal = nil
+				return "signal oneof cleared"
+			}
+		case 1:
+			if len(n.Attributes) > 0 {
+				n.Attributes[r.below(len(n.Attributes))].Attribute = nil
+				return "attribute oneof cleared"
+			}
+		case 2:
+			if len(s.assigns) > 0 {
+				s.assigns[r.below(len(s.assigns))].Value = nil
+				return "assignment value cleared"
+			}
+		}
+		return ""
+	}},
+	{"change-kind", func(r *rng, n *pb.Network, s *sites) string {
+		if r.chance(60) && len(s.sigs) > 0 {
+			x := s.sigs[r.below(len(s.sigs))]
+			x.Kind = pb.SignalKind(r.below(5))
+			return fmt.Sprintf("signal kind set to %d", x.Kind)
+		}
+		if len(n.Attributes) > 0 {
+			a := n.Attributes[r.below(len(n.Attributes))]
+			a.Type = pb.AttributeType(r.below(6))
+			return fmt.Sprintf("attribute type set to %d", a.Type)
+		}
+		return ""
+	}},
+	{"swap-arm", func(r *rng, n *pb.Network, s *sites) string {
+		switch r.below(3) {
+		case 0:
+			if len(s.sigs) > 0 {
+				x := s.sigs[r.below(len(s.sigs))]
+				switch r.below(3) {
+				case 0:
+					x.Signal = &pb.Signal_Standard{Standard: &pb.StandardSignal{TypeEntityId: pickID(r, s, "type"), UnitEntityId: pickID(r, s, "unit")}}
+				case 1:
+					x.Signal = &pb.Signal_Enum{Enum: &pb.EnumSignal{EnumEntityId: pickID(r, s, "enum")}}
+				case 2:
+					x.Signal = &pb.Signal_Multiplexer{Multiplexer: &pb.MultiplexerSignal{GroupCount: uint32(r.below(4)), GroupSize: uint32(r.below(9))}}
+				}
+				if r.chance(50) {
+					switch x.Signal.(type) {
+					case *pb.Signal_Standard:
+						x.Kind = pb.SignalKind_SIGNAL_KIND_STANDARD
+					case *pb.Signal_Enum:
+						x.Kind = pb.SignalKind_SIGNAL_KIND_ENUM
+					case *pb.Signal_Multiplexer:
+						x.Kind = pb.SignalKind_SIGNAL_KIND_MULTIPLEXER
+					}
+				}
+				return "signal oneof arm replaced"
+			}
+		case 1:
+			if len(n.Attributes) > 0 {
+				a := n.Attributes[r.below(len(n.Attributes))]
+				switch r.below(4) {
+				case 0:
+					a.Attribute = &pb.Attribute_StringAttribute{StringAttribute: &pb.StringAttribute{DefValue: "x"}}
+				case 1:
+					a.Attribute = &pb.Attribute_IntegerAttribute{IntegerAttribute: &pb.IntegerAttribute{DefValue: int32(r.below(9) - 4), Min: int32(r.below(9) - 4), Max: int32(r.below(9) - 4)}}
+				case 2:
+					a.Attribute = &pb.Attribute_FloatAttribute{FloatAttribute: &pb.FloatAttribute{DefValue: floatPool[r.below(len(floatPool))], Min: floatPool[r.below(len(floatPool))], Max: floatPool[r.below(len(floatPool))]}}
+				case 3:
+					a.Attribute = &pb.Attribute_EnumAttribute{EnumAttribute: &pb.EnumAttribute{DefValue: "A", Values: []string{"A", "B"}[:r.below(3)]}}
+				}
+				return "attribute oneof arm replaced"
+			}
+		case 2:
+			if len(s.assigns) > 0 {
+				a := s.assigns[r.below(len(s.assigns))]
+				switch r.below(3) {
+				case 0:
+					a.Value = &pb.AttributeAssignment_ValueString{ValueString: []string{"", "V1", "nope"}[r.below(3)]}
+				case 1:
+					a.Value = &pb.AttributeAssignment_ValueInt{ValueInt: []int32{0, -1, math.MaxInt32, math.MinInt32, 5}[r.below(5)]}
+				case 2:
+					a.Value = &pb.AttributeAssignment_ValueDouble{ValueDouble: []float64{0, math.NaN(), math.Inf(1), -1e308, 2.5}[r.below(5)]}
+				}
+				return "assignment value arm replaced"
+			}
+		}
+		return ""
+	}},
+	{"retarget-id", func(r *rng, n *pb.Network, s *sites) string {
+		if len(s.idFields) == 0 {
+			return ""
+		}
+		i := r.below(len(s.idFields))
+		*s.idFields[i] = pickID(r, s, s.idKinds[i])
+		return "reference to a " + s.idKinds[i] + " retargeted"
+	}},
+	{"duplicate-element", func(r *rng, n *pb.Network, s *sites) string {
+		switch r.below(11) {
+		case 0:
+			if len(n.Buses) > 0 {
+				n.Buses = append(n.Buses, proto.Clone(n.Buses[r.below(len(n.Buses))]).(*pb.Bus))
+				return "bus duplicated"
+			}
+		case 1:
+			if len(s.ifaces) > 0 && len(s.ifLists) > 0 {
+				l := s.ifLists[r.below(len(s.ifLists))]
+				*l = append(*l, proto.Clone(s.ifaces[r.below(len(s.ifaces))]).(*pb.NodeInterface))
+				return "node interface duplicated (same or other bus)"
+			}
+		case 2:
+			if len(s.msgs) > 0 && len(s.msgLists) > 0 {
+				l := s.msgLists[r.below(len(s.msgLists))]
+				*l = append(*l, proto.Clone(s.msgs[r.below(len(s.msgs))]).(*pb.Message))
+				return "message duplicated (same or other interface)"
+			}
+		case 3:
+			if len(s.sigs) > 0 && len(s.sigLists) > 0 {
+				l := s.sigLists[r.below(len(s.sigLists))]
+				*l = append(*l, proto.Clone(s.sigs[r.below(len(s.sigs))]).(*pb.Signal))
+				return "signal duplicated (same or other list)"
+			}
+		case 4:
+			if len(n.SignalEnums) > 0 {
+				e := n.SignalEnums[r.below(len(n.SignalEnums))]
+				if len(e.Values) > 0 {
+					e.Values = append(e.Values, proto.Clone(e.Values[r.below(len(e.Values))]).(*pb.SignalEnumValue))
+					return "enum value duplicated"
+				}
+			}
+		case 5:
+			if len(n.Attributes) > 0 {
+				n.Attributes = append(n.Attributes, proto.Clone(n.Attributes[r.below(len(n.Attributes))]).(*pb.Attribute))
+				return "attribute duplicated"
+			}
+		case 6:
+			if len(n.Nodes) > 0 {
+				n.Nodes = append(n.Nodes, proto.Clone(n.Nodes[r.below(len(n.Nodes))]).(*pb.Node))
+				return "node duplicated"
+			}
+		case 7:
+			if len(s.payloads) > 0 {
+				p := s.payloads[r.below(len(s.payloads))]
+				if len(p.Refs) > 0 {
+					c := proto.Clone(p.Refs[r.below(len(p.Refs))]).(*pb.SignalPayloadRef)
+					if r.chance(50) {
+						c.RelStartBit += uint32(r.below(4))
+					}
+					p.Refs = append(p.Refs, c)
+					return "payload ref duplicated"
+				}
+			}
+		case 8:
+			if len(s.msgs) > 0 {
+				m := s.msgs[r.below(len(s.msgs))]
+				if len(m.Receivers) > 0 {
+					c := proto.Clone(m.Receivers[r.below(len(m.Receivers))]).(*pb.MessageReceiver)
+					if r.chance(50) {
+						c.NodeInterfaceNumber = uint32(r.below(3))
+					}
+					m.Receivers = append(m.Receivers, c)
+					return "receiver duplicated (maybe other interface of the node)"
+				}
+			}
+		case 9:
+			if len(s.assigns) > 0 && len(s.asLists) > 0 {
+				l := s.asLists[r.below(len(s.asLists))]
+				*l = append(*l, proto.Clone(s.assigns[r.below(len(s.assigns))]).(*pb.AttributeAssignment))
+				return "assignment duplicated (same or other entity)"
+			}
+		case 10:
+			if len(n.SignalTypes) > 0 {
+				n.SignalTypes = append(n.SignalTypes, proto.Clone(n.SignalTypes[r.below(len(n.SignalTypes))]).(*pb.SignalType))
+				return "signal type duplicated"
+			}
+		}
+		return ""
+	}},
+	{"number-out-of-range", func(r *rng, n *pb.Network, s *sites) string {
+		if len(s.u32) == 0 {
+			return ""
+		}
+		i := r.below(len(s.u32))
+		v := u32Pool[r.below(len(u32Pool))]
+		if (s.u32Names[i] == "group_count" || s.u32Names[i] == "interface_count") && v > 65536 {
+			v = 65536 // eager allocation: stated assumption
+		}
+		*s.u32[i] = v
+		return fmt.Sprintf("%s set to %d", s.u32Names[i], v)
+	}},
+	{"iface-number", func(r *rng, n *pb.Network, s *sites) string {
+		if len(s.ifaces) == 0 {
+			return ""
+		}
+		ni := s.ifaces[r.below(len(s.ifaces))]
+		ni.Number = []int32{-1, 0, 1, 2, 3, 100, math.MaxInt32, math.MinInt32}[r.below(8)]
+		return fmt.Sprintf("interface number set to %d", ni.Number)
+	}},
+	{"empty-values", func(r *rng, n *pb.Network, s *sites) string {
+		cands := []*pb.EnumAttribute{}
+		for _, a := range n.Attributes {
+			if e := a.GetEnumAttribute(); e != nil {
+				cands = append(cands, e)
+			}
+		}
+		switch r.below(4) {
+		case 0:
+			if len(cands) > 0 {
+				cands[r.below(len(cands))].Values = nil
+				return "enum attribute values emptied"
+			}
+		case 1:
+			if len(cands) > 0 {
+				cands[r.below(len(cands))].DefValue = "not-a-value"
+				return "enum attribute default not among the values"
+			}
+		case 2:
+			if len(cands) > 0 {
+				e := cands[r.below(len(cands))]
+				e.Values = append(e.Values, e.DefValue, e.DefValue)
+				return "enum attribute default listed several times"
+			}
+		case 3:
+			if len(n.SignalEnums) > 0 {
+				n.SignalEnums[r.below(len(n.SignalEnums))].Values = nil
+				return "signal enum values emptied"
+			}
+		}
+		return ""
+	}},
+	{"overlap-positions", func(r *rng, n *pb.Network, s *sites) string {
+		cands := []*pb.SignalPayload{}
+		for _, p := range s.payloads {
+			if len(p.Refs) >= 2 {
+				cands = append(cands, p)
+			}
+		}
+		if len(cands) == 0 {
+			return ""
+		}
+		p := cands[r.below(len(cands))]
+		i, j := r.below(len(p.Refs)), r.below(len(p.Refs))
+		if i == j {
+			j = (i + 1) % len(p.Refs)
+		}
+		p.Refs[i].RelStartBit = p.Refs[j].RelStartBit + uint32(r.below(3))
+		return "two payload refs made to overlap"
+	}},
+	{"duplicate-key", func(r *rng, n *pb.Network, s *sites) string {
+		live := []int{}
+		for i, e := range s.ents {
+			if *e != nil {
+				live = append(live, i)
+			}
+		}
+		if len(live) < 2 {
+			return ""
+		}
+		a, b := live[r.below(len(live))], live[r.below(len(live))]
+		if a == b {
+			return ""
+		}
+		// prefer a sibling of the same kind
+		for t := 0; t < 8 && s.entOwners[a] != s.entOwners[b]; t++ {
+			b = live[r.below(len(live))]
+		}
+		if a == b {
+			return ""
+		}
+		if r.chance(50) {
+			(*s.ents[a]).Name = (*s.ents[b]).Name
+			return "name of a " + s.entOwners[a] + " set to the name of a " + s.entOwners[b]
+		}
+		(*s.ents[a]).EntityId = (*s.ents[b]).EntityId
+		return "entity id of a " + s.entOwners[a] + " set to the id of a " + s.entOwners[b]
+	}},
+	{"duplicate-number-key", func(r *rng, n *pb.Network, s *sites) string {
+		switch r.below(4) {
+		case 0:
+			if len(n.Nodes) >= 2 {
+				n.Nodes[r.below(len(n.Nodes))].NodeId = n.Nodes[r.below(len(n.Nodes))].NodeId
+				return "node id duplicated"
+			}
+		case 1:
+			if len(s.msgs) >= 2 {
+				a, b := s.msgs[r.below(len(s.msgs))], s.msgs[r.below(len(s.msgs))]
+				a.MessageId = b.MessageId
+				return "message id duplicated"
+			}
+		case 2:
+			if len(s.msgs) >= 2 {
+				a, b := s.msgs[r.below(len(s.msgs))], s.msgs[r.below(len(s.msgs))]
+				a.HasStaticCanId, b.HasStaticCanId = true, true
+				a.StaticCanId = b.StaticCanId
+				return "static CAN-ID duplicated"
+			}
+		case 3:
+			if len(n.SignalEnums) > 0 {
+				e := n.SignalEnums[r.below(len(n.SignalEnums))]
+				if len(e.Values) >= 2 {
+					e.Values[r.below(len(e.Values))].Index = e.Values[r.below(len(e.Values))].Index
+					return "enum value index duplicated"
+				}
+			}
+		}
+		return ""
+	}},
+	{"timestamp", func(r *rng, n *pb.Network, s *sites) string {
+		i := r.below(len(s.ents))
+		if *s.ents[i] == nil {
+			return ""
+		}
+		switch r.below(3) {
+		case 0:
+			(*s.ents[i]).CreateTime = nil
+		case 1:
+			(*s.ents[i]).CreateTime = &timestamppb.Timestamp{Seconds: 1, Nanos: -5}
+		case 2:
+			(*s.ents[i]).CreateTime = &timestamppb.Timestamp{Seconds: math.MaxInt64, Nanos: 0}
+		}
+		return "creation time removed / invalid"
+	}},
+	{"receiver", func(r *rng, n *pb.Network, s *sites) string {
+		if len(s.ifaces) == 0 {
+			return ""
+		}
+		ni := s.ifaces[r.below(len(s.ifaces))]
+		if len(ni.Messages) == 0 {
+			return ""
+		}
+		m := ni.Messages[r.below(len(ni.Messages))]
+		if r.chance(50) {
+			m.Receivers = append(m.Receivers, &pb.MessageReceiver{NodeEntityId: ni.NodeEntityId, NodeInterfaceNumber: uint32(ni.Number)})
+			return "sender listed as receiver"
+		}
+		other := s.ifaces[r.below(len(s.ifaces))]
+		m.Receivers = append(m.Receivers, &pb.MessageReceiver{NodeEntityId: other.NodeEntityId, NodeInterfaceNumber: 0},
+			&pb.MessageReceiver{NodeEntityId: other.NodeEntityId, NodeInterfaceNumber: 1})
+		return "two interfaces of one node listed as receivers"
+	}},
+	{"mux-groups", func(r *rng, n *pb.Network, s *sites) string {
+		if len(s.muxes) == 0 {
+			return ""
+		}
+		m := s.muxes[r.below(len(s.muxes))]
+		switch r.below(6) {
+		case 0:
+			extra := &pb.SignalPayload{}
+			if len(m.Groups) > 0 && r.chance(70) {
+				extra = proto.Clone(m.Groups[r.below(len(m.Groups))]).(*pb.SignalPayload)
+			}
+			m.Groups = append(m.Groups, extra)
+			return "group added beyond the group count"
+		case 1:
+			if len(m.Groups) > 0 {
+				g := m.Groups[r.below(len(m.Groups))]
+				if len(g.Refs) > 0 {
+					i := r.below(len(g.Refs))
+					g.Refs = append(g.Refs[:i:i], g.Refs[i+1:]...)
+					return "ref removed from one group"
+				}
+			}
+		case 2:
+			if len(m.Signals) > 0 {
+				m.FixedSignalEntityIds = append(m.FixedSignalEntityIds, m.Signals[r.below(len(m.Signals))].GetEntity().GetEntityId())
+				return "grouped signal listed as fixed"
+			}
+		case 3:
+			if len(m.FixedSignalEntityIds) > 0 {
+				i := r.below(len(m.FixedSignalEntityIds))
+				m.FixedSignalEntityIds = append(m.FixedSignalEntityIds[:i:i], m.FixedSignalEntityIds[i+1:]...)
+				return "fixed signal no longer listed as fixed"
+			}
+		case 4:
+			if len(m.Groups) > 0 {
+				g := m.Groups[r.below(len(m.Groups))]
+				if len(g.Refs) > 0 {
+					g.Refs[r.below(len(g.Refs))].RelStartBit += uint32(1 + r.below(6))
+					return "position of a signal changed in one group only"
+				}
+			}
+		case 5:
+			if len(m.Groups) > 1 {
+				m.Groups = m.Groups[:len(m.Groups)-1]
+				return "last group dropped"
+			}
+		}
+		return ""
+	}},
+	{"drop-or-add-ref", func(r *rng, n *pb.Network, s *sites) string {
+		if len(s.payloads) == 0 {
+			return ""
+		}
+		p := s.payloads[r.below(len(s.payloads))]
+		if r.chance(50) && len(p.Refs) > 0 {
+			i := r.below(len(p.Refs))
+			p.Refs = append(p.Refs[:i:i], p.Refs[i+1:]...)
+			return "payload ref dropped"
+		}
+		p.Refs = append(p.Refs, &pb.SignalPayloadRef{SignalEntityId: pickID(r, s, "sig"), RelStartBit: uint32(r.below(64))})
+		return "payload ref added"
+	}},
+	{"static-flag", func(r *rng, n *pb.Network, s *sites) string {
+		if len(s.msgs) == 0 {
+			return ""
+		}
+		m := s.msgs[r.below(len(s.msgs))]
+		m.HasStaticCanId = !m.HasStaticCanId
+		return "has_static_can_id flipped"
+	}},
+	{"enum-numbers", func(r *rng, n *pb.Network, s *sites) string {
+		switch r.below(4) {
+		case 0:
+			if len(s.msgs) > 0 {
+				m := s.msgs[r.below(len(s.msgs))]
+				m.Priority = pb.MessagePriority(r.below(9) - 2)
+				m.ByteOrder = pb.MessageByteOrder(r.below(5))
+				m.SendType = pb.MessageSendType(r.below(8))
+				return "message enum fields set to undefined numbers"
+			}
+		case 1:
+			if len(s.sigs) > 0 {
+				s.sigs[r.below(len(s.sigs))].SendType = pb.SignalSendType(r.below(12))
+				return "signal send type set to an undefined number"
+			}
+		case 2:
+			if len(n.Buses) > 0 {
+				n.Buses[r.below(len(n.Buses))].Type = pb.BusType(r.below(5))
+				return "bus type set to an undefined number"
+			}
+		case 3:
+			if len(n.SignalTypes) > 0 {
+				n.SignalTypes[r.below(len(n.SignalTypes))].Kind = pb.SignalTypeKind(r.below(8))
+				return "signal type kind set to an undefined number"
+			}
+		}
+		return ""
+	}},
+	{"attribute-bounds", func(r *rng, n *pb.Network, s *sites) string {
+		for t := 0; t < 6 && len(n.Attributes) > 0; t++ {
+			a := n.Attributes[r.below(len(n.Attributes))]
+			if ia := a.GetIntegerAttribute(); ia != nil {
+				switch r.below(3) {
+				case 0:
+					ia.Min, ia.Max = ia.Max+1, ia.Min-1
+				case 1:
+					ia.DefValue = ia.Max + 1
+				case 2:
+					ia.DefValue = ia.Min - 1
+				}
+				return "integer attribute bounds made inconsistent"
+			}
+			if fa := a.GetFloatAttribute(); fa != nil {
+				switch r.below(4) {
+				case 0:
+					fa.Min, fa.Max = fa.Max+1, fa.Min-1
+				case 1:
+					fa.DefValue = math.NaN()
+				case 2:
+					fa.Min = math.NaN()
+				case 3:
+					fa.DefValue = fa.Max + 1
+				}
+				return "float attribute bounds made inconsistent"
+			}
+		}
+		return ""
+	}},
+}
+
+// ------------------------------------------------------------------------------------------
+// byte / character level mutations
+// ------------------------------------------------------------------------------------------
+
+func mutateBytes(r *rng, data []byte, textual bool) ([]byte, string) {
+	d := append([]byte(nil), data...)
+	if len(d) == 0 {
+		return []byte{byte(r.next())}, "one random byte"
+	}
+	structural := []byte("{}[]\":,<> \n0123456789-.eE+truefalsnu")
+	switch r.below(8) {
+	case 0:
+		n := 1 + r.below(4)
+		for i := 0; i < n; i++ {
+			p := r.below(len(d))
+			if textual {
+				d[p] = structural[r.below(len(structural))]
+			} else {
+				d[p] ^= 1 << uint(r.below(8))
+			}
+		}
+		return d, fmt.Sprintf("%d byte(s) altered", n)
+	case 1:
+		return d[:r.below(len(d))], "truncated"
+	case 2:
+		a := r.below(len(d))
+		b := a + r.below(len(d)-a)
+		return append(d[:a:a], d[b:]...), "range deleted"
+	case 3:
+		a := r.below(len(d))
+		ins := make([]byte, 1+r.below(8))
+		for i := range ins {
+			if textual {
+				ins[i] = structural[r.below(len(structural))]
+			} else {
+				ins[i] = byte(r.next())
+			}
+		}
+		return append(d[:a:a], append(ins, d[a:]...)...), "bytes inserted"
+	case 4:
+		a := r.below(len(d))
+		b := a + r.below(min(len(d)-a, 200))
+		return append(d[:b:b], append(append([]byte(nil), d[a:b]...), d[b:]...)...), "range duplicated"
+	case 5:
+		p := r.below(len(d))
+		d[p] = byte(r.next())
+		return d, "one byte randomised"
+	case 6:
+		if textual {
+			lines := bytes.Split(d, []byte("\n"))
+			i := r.below(len(lines))
+			lines = append(lines[:i:i], lines[i+1:]...)
+			return bytes.Join(lines, []byte("\n")), "one line deleted"
+		}
+		p := r.below(len(d))
+		d[p] = 0xff
+		return d, "byte set to 0xff (varint continuation)"
+	default:
+		if textual {
+			lines := bytes.Split(d, []byte("\n"))
+			i, j := r.below(len(lines)), r.below(len(lines))
+			lines[i], lines[j] = lines[j], lines[i]
+			return bytes.Join(lines, []byte("\n")), "two lines swapped"
+		}
+		a := r.below(len(d))
+		b := a + r.below(min(len(d)-a, 16))
+		for i := a; i < b; i++ {
+			d[i] = 0
+		}
+		return d, "range zeroed"
+	}
+}
+
+// ------------------------------------------------------------------------------------------
+// invariants of a loaded network (shared evaluators + id uniqueness)
+// ------------------------------------------------------------------------------------------
+
+func invariants(n *acmelib.Network) (out []string, panicked string) {
+	defer func() {
+		if r := recover(); r != nil {
+			panicked = fmt.Sprint(r) + " at " + panicSite()
+		}
+	}()
+	out = append(out, vinv.CheckNetwork(n)...)
+	_, col := dumpNet(n)
+	for _, m := range col.msgs {
+		out = append(out, vinv.CheckMessageLayout(m)...)
+		out = append(out, vinv.CheckMessageRegistry(m)...)
+		// local equivalent (until the shared registry check covers it): names unique at every depth
+		names := map[string]acmelib.EntityID{}
+		var walk func(s acmelib.Signal)
+		seen := map[acmelib.EntityID]bool{}
+		walk = func(s acmelib.Signal) {
+			if seen[s.EntityID()] {
+				return
+			}
+			seen[s.EntityID()] = true
+			if other, ok := names[s.Name()]; ok && other != s.EntityID() {
+				out = append(out, fmt.Sprintf("c04-signal-names-unique: message %q holds two signals named %q", m.Name(), s.Name()))
+			}
+			names[s.Name()] = s.EntityID()
+			if got, err := m.GetSignalByName(s.Name()); err != nil || got.EntityID() != s.EntityID() {
+				out = append(out, fmt.Sprintf("c04-signal-name-lookup: message %q: GetSignalByName(%q) does not return the signal of that name", m.Name(), s.Name()))
+			}
+			if s.ParentMessage() != m {
+				out = append(out, fmt.Sprintf("c05-signal-message-link: signal %q inside message %q reports another parent message", s.Name(), m.Name()))
+			}
+			if ms, err := s.ToMultiplexer(); err == nil && s.Kind() == acmelib.SignalKindMultiplexer {
+				for _, g := range ms.GetSignalGroups() {
+					for _, c := range g {
+						if c.ParentMultiplexerSignal() != ms {
+							out = append(out, fmt.Sprintf("c05-signal-mux-link: signal %q in a group of %q reports another parent multiplexer", c.Name(), ms.Name()))
+						}
+						walk(c)
+					}
+				}
+			}
+		}
+		for _, s := range m.Signals() {
+			walk(s)
+		}
+	}
+	for _, e := range col.enums {
+		out = append(out, vinv.CheckEnum(e)...)
+	}
+	// entity ids are unique over everything reachable
+	ids := map[acmelib.EntityID]string{}
+	add := func(id acmelib.EntityID, what string) {
+		if prev, ok := ids[id]; ok {
+			out = append(out, fmt.Sprintf("c04-entity-ids-unique: %s and %s share the entity id %q", prev, what, id))
+		}
+		ids[id] = what
+	}
+	add(n.EntityID(), "network")
+	for _, b := range n.Buses() {
+		add(b.EntityID(), "bus")
+	}
+	for _, x := range col.nodes {
+		add(x.EntityID(), "node")
+	}
+	for _, x := range col.msgs {
+		add(x.EntityID(), "message")
+	}
+	for _, x := range col.sigs {
+		add(x.EntityID(), "signal")
+	}
+	for _, x := range col.types {
+		add(x.EntityID(), "type")
+	}
+	for _, x := range col.units {
+		add(x.EntityID(), "unit")
+	}
+	for _, x := range col.enums {
+		add(x.EntityID(), "enum")
+		for _, v := range x.Values() {
+			add(v.EntityID(), "enum value")
+		}
+	}
+	for _, x := range col.attrs {
+		add(x.EntityID(), "attribute")
+	}
+	for _, x := range col.builders {
+		add(x.EntityID(), "builder")
+	}
+	// a message is sent by the interface that lists it, an interface sits on the bus that lists it
+	for _, b := range n.Buses() {
+		for _, ni := range b.NodeInterfaces() {
+			for _, m := range ni.SentMessages() {
+				if m.SenderNodeInterface() != ni {
+					out = append(out, "c05-message-sender-link: a listed message reports another sender interface")
+				}
+				for _, rc := range m.Receivers() {
+					if rc == ni {
+						out = append(out, "c05-receiver-is-sender: an interface receives a message it sends")
+					}
+					found := false
+					for _, rm := range rc.ReceivedMessages() {
+						if rm == m {
+							found = true
+						}
+					}
+					if !found {
+						out = append(out, "c05-receiver-link: a receiver of a message does not list the message as received")
+					}
+				}
+			}
+			for _, rm := range ni.ReceivedMessages() {
+				found := false
+				for _, rc := range rm.Receivers() {
+					if rc == ni {
+						found = true
+					}
+				}
+				if !found {
+					out = append(out, "c05-receiver-link: an interface lists a received message that does not list it as receiver")
+				}
+			}
+		}
+	}
+	return out, ""
+}
+
+func clause(s string) string {
+	if i := strings.Index(s, ":"); i > 0 {
+		return s[:i]
+	}
+	return s
+}
+
+// ------------------------------------------------------------------------------------------
+// runner
+// ------------------------------------------------------------------------------------------
+
+type c13Input struct {
+	id    string
+	enc   acmelib.SaveEncoding
+	data  []byte
+	descr string
+}
+
+func runC13(seed uint64, ncases int, outPath string, replay string) {
+	f, err := os.Create(outPath)
+	if err != nil {
+		panic(err)
+	}
+	defer f.Close()
+	out := bufio.NewWriterSize(f, 1<<20)
+	defer out.Flush()
+	progress, _ := os.Create(outPath + ".progress")
+	defer progress.Close()
+	st := &c12Stats{hist: map[string]int{}, fails: map[string]string{}, failSize: map[string]int{}, failReplay: map[string]string{}}
+	seen := map[string]bool{}
+	master := &rng{s: seed ^ 0xC13C13}
+
+	evaluate := func(in c13Input) {
+		st.evaluations++
+		eid := encNames[in.enc]
+		key := eid + ":" + string(in.data)
+		fresh := !seen[key]
+		seen[key] = true
+		fmt.Fprintf(progress, "%s %s %s\n", in.id, eid, hex.EncodeToString(in.data))
+		replayObj := fmt.Sprintf("%s %s", eid, hex.EncodeToString(in.data))
+		tree, uerr := unmarshalAs(in.data, in.enc)
+		if uerr == nil {
+			if mc := maxCounts(tree); mc > 65536 {
+				st.hist["skipped-count-above-2^16"]++
+				return
+			}
+		}
+		o := guardedLoad(in.data, in.enc, 20*time.Second)
+		size := len(in.data)
+		switch {
+		case o.panicV != nil:
+			st.hist["outcome-PANIC"]++
+			msg := fmt.Sprint(o.panicV)
+			cls := "other"
+			for _, k := range []string{"nil pointer", "index out of range", "slice bounds", "nil map", "interface conversion", "makeslice", "out of memory"} {
+				if strings.Contains(msg, k) {
+					cls = strings.ReplaceAll(k, " ", "-")
+				}
+			}
+			st.fail("c13-panic@"+o.stack+":"+cls, fmt.Sprintf("LoadNetwork(%s) panics: %v in %s; input: %s", eid, o.panicV, o.stack, in.descr), size, replayObj)
+		case o.hang:
+			st.hist["outcome-HANG"]++
+			st.fail("c13-hang", fmt.Sprintf("LoadNetwork(%s) did not return within 20 s; input: %s", eid, in.descr), size, replayObj)
+		case o.err != nil:
+			st.hist["outcome-error"]++
+			st.hist["error-"+errClass(o.err)]++
+		default:
+			st.hist["outcome-ok"]++
+			if uerr != nil {
+				st.fail("c13-accepts-undecodable", fmt.Sprintf("LoadNetwork(%s) succeeds on bytes the decoder rejects (%v)", eid, uerr), size, replayObj)
+			}
+			broken, pan := invariants(o.net)
+			if pan != "" {
+				st.fail("c13-invariant-eval-panic", fmt.Sprintf("reading the network loaded from (%s) panics: %s; input: %s", eid, pan, in.descr), size, replayObj)
+			}
+			cl := map[string]bool{}
+			for _, b := range broken {
+				if c := clause(b); !cl[c] {
+					cl[c] = true
+					st.fail("c13-inv:"+c, fmt.Sprintf("LoadNetwork(%s) succeeds with a network that breaks %s; input: %s", eid, b, in.descr), size, replayObj)
+				}
+			}
+			if len(broken) > 0 {
+				st.hist["outcome-ok-invariant-broken"]++
+			}
+		}
+		if uerr != nil {
+			st.hist["decoder-rejects"]++
+			return
+		}
+		if fresh {
+			st.nontrivial++
+		}
+		if o.panicV == nil && !o.hang {
+			fmt.Fprintf(out, "P %s %s %s\n", in.id, eid, dumpPNet(tree).String())
+			if o.err != nil {
+				fmt.Fprintf(out, "L %s %s (err)\n", in.id, eid)
+			} else {
+				gotSX, _ := dumpNet(o.net)
+				fmt.Fprintf(out, "L %s %s (ok %s)\n", in.id, eid, gotSX.String())
+			}
+		}
+	}
+
+	if replay != "" {
+		parts := strings.SplitN(strings.TrimSpace(replay), " ", 2)
+		var enc acmelib.SaveEncoding
+		for e, nme := range encNames {
+			if nme == parts[0] {
+				enc = e
+			}
+		}
+		data, _ := hex.DecodeString(parts[1])
+		evaluate(c13Input{id: "replay", enc: enc, data: data, descr: "replayed input"})
+		for k, v := range st.hist {
+			fmt.Printf("%s %d\n", k, v)
+		}
+		writeSummary(outPath+".summary", st)
+		return
+	}
+
+	treeCases := ncases * 3 / 10 // each yields 3 inputs
+	byteCases := ncases - 3*treeCases
+	var bases []*pb.Network
+	var baseBytes [][3][]byte
+	nb := 12 + ncases/200
+	for i := 0; i < nb; i++ {
+		w := genWorld(master.next(), i%4 != 0)
+		var bufs [3]bytes.Buffer
+		if err := acmelib.SaveNetwork(w.net, 7, &bufs[0], &bufs[1], &bufs[2]); err != nil {
+			continue
+		}
+		p := &pb.Network{}
+		if err := proto.Unmarshal(bufs[0].Bytes(), p); err != nil {
+			continue
+		}
+		bases = append(bases, p)
+		baseBytes = append(baseBytes, [3][]byte{bufs[0].Bytes(), bufs[1].Bytes(), bufs[2].Bytes()})
+		for k, v := range w.hist {
+			st.hist["base-"+k] += v
+		}
+	}
+	st.cases = 0
+
+	// ---- tree-level mutations, each written in the three encodings
+	for ci := 0; ci < treeCases; ci++ {
+		r := &rng{s: master.next()}
+		base := bases[r.below(len(bases))]
+		tree := proto.Clone(base).(*pb.Network)
+		k := 1
+		if x := r.below(10); x >= 6 {
+			k = 2
+		} else if x == 9 {
+			k = 3
+		}
+		descr := []string{}
+		for tries := 0; len(descr) < k && tries < 20; tries++ {
+			mu := mutations[r.below(len(mutations))]
+			if d := mu.f(r, tree, collect(tree)); d != "" {
+				descr = append(descr, mu.name+": "+d)
+				st.hist["mut-"+mu.name]++
+			}
+		}
+		if len(descr) == 0 {
+			continue
+		}
+		st.cases++
+		id := fmt.Sprintf("t%d", ci)
+		if len(st.samples) < 3 {
+			st.samples = append(st.samples, strings.Join(descr, "; "))
+		}
+		if data, err := proto.Marshal(tree); err == nil {
+			evaluate(c13Input{id, acmelib.SaveEncodingWire, data, strings.Join(descr, "; ")})
+		} else {
+			st.hist["marshal-error-wire"]++
+		}
+		if data, err := (protojson.MarshalOptions{Multiline: true}).Marshal(tree); err == nil {
+			evaluate(c13Input{id, acmelib.SaveEncodingJSON, data, strings.Join(descr, "; ")})
+		} else {
+			st.hist["marshal-error-json"]++
+		}
+		if data, err := (prototext.MarshalOptions{Multiline: true}).Marshal(tree); err == nil {
+			evaluate(c13Input{id, acmelib.SaveEncodingText, data, strings.Join(descr, "; ")})
+		} else {
+			st.hist["marshal-error-text"]++
+		}
+	}
+
+	// ---- byte / character level mutations and random bytes
+	for ci := 0; ci < byteCases; ci++ {
+		r := &rng{s: master.next()}
+		ei := r.below(3)
+		enc := encList[ei]
+		id := fmt.Sprintf("b%d", ci)
+		st.cases++
+		if r.chance(12) {
+			data := make([]byte, r.below(48))
+			for i := range data {
+				data[i] = byte(r.next())
+			}
+			st.hist["mut-random-bytes"]++
+			evaluate(c13Input{id, enc, data, "random bytes"})
+			continue
+		}
+		bi := r.below(len(baseBytes))
+		data, d := mutateBytes(r, baseBytes[bi][ei], ei != 0)
+		if r.chance(25) {
+			var d2 string
+			data, d2 = mutateBytes(r, data, ei != 0)
+			d += "; " + d2
+		}
+		st.hist["mut-bytes-"+encNames[enc]]++
+		evaluate(c13Input{id, enc, data, "byte level: " + d})
+	}
+	// the empty input, in each encoding
+	for _, enc := range encList {
+		st.cases++
+		evaluate(c13Input{"empty", enc, []byte{}, "empty input"})
+	}
+	keys := []string{}
+	for k := range st.hist {
+		keys = append(keys, k)
+	}
+	sort.Strings(keys)
+	writeSummary(outPath+".summary", st)
+}
